@@ -125,7 +125,7 @@ def compare(case, obs, msgs, mdl):
             break
         m = msgs[i]
         if e["status"] is not None and m["status"] not in e["status"]:
-            if e.get("computed"):
+            if e.get("computed") and m["status"] not in H.PENDING:
                 faces.append(("final-status", "final response %d: expected %s from counters, observed %s (counters completed=%s failed=%s warning=%s)"
                               % (i, "/".join(_hx(x) for x in sorted(e["status"])), _hx(m["status"]), m["comp"], m["fail"], m["warn"])))
             else:
